@@ -65,6 +65,28 @@ func (e *expr) strands(acc map[int][]Item) [][]Item {
 	panic("bad expr")
 }
 
+// bound: an upper bound on the number of items a reader with this derivation can receive.
+func (e *expr) bound(wlen map[int]int) int {
+	switch e.kind {
+	case "pipe":
+		return wlen[e.hp]
+	case "arr":
+		return len(e.xs)
+	case "merge":
+		n := 0
+		for _, s := range e.sub {
+			n += s.bound(wlen)
+		}
+		return n
+	default:
+		n := 0
+		for _, s := range e.sub {
+			n += s.bound(wlen)
+		}
+		return n
+	}
+}
+
 // interleaves: obs is an interleaving of prefixes of the strands (of the whole strands if full).
 func interleaves(full bool, obs []Item, strs [][]Item) bool {
 	if len(obs) == 0 {
